@@ -851,3 +851,123 @@ func containersNeverEncodeAsNull(c *core.Ctx) {
 	}
 	c.Stat("container_marshalers", n)
 }
+
+// ---------------------------------------------------------------------------
+// scriptDivisionsAreGuarded: where the value types, the builtins and the
+// modules divide an integer by a value that comes from the script, a test of
+// the divisor against a constant decides first.  An integer division by zero
+// is a Go panic; inside the VM it is recovered into an error that try cannot
+// catch and that reads "panic: runtime error: integer divide by zero", and a
+// wrapper of a Go function that itself has an answer for a zero divisor
+// (math.Mod gives NaN) stops agreeing with it.
+func scriptDivisionsAreGuarded(c *core.Ctx) {
+	p := c.P
+	n := 0
+	perFn := map[*ssa.Function]int{}
+	for _, fn := range repoFns(p) {
+		rel := core.RelPkg(fn.Pkg.Pkg)
+		if rel != "object" && rel != "builtins" && !strings.HasPrefix(rel, "modules/") {
+			continue
+		}
+		for _, b := range fn.Blocks {
+			for _, in := range b.Instrs {
+				bo, ok := in.(*ssa.BinOp)
+				if !ok || (bo.Op != token.QUO && bo.Op != token.REM) {
+					continue
+				}
+				bt, ok := bo.X.Type().Underlying().(*types.Basic)
+				if !ok || bt.Info()&types.IsInteger == 0 {
+					continue
+				}
+				if k, ok := bo.Y.(*ssa.Const); ok && k.Value != nil {
+					continue
+				}
+				n++
+				perFn[fn]++
+				guarded := false
+				for _, b2 := range fn.Blocks {
+					if len(b2.Instrs) == 0 || b2 == b || !b2.Dominates(b) {
+						continue
+					}
+					iff, ok := b2.Instrs[len(b2.Instrs)-1].(*ssa.If)
+					if !ok {
+						continue
+					}
+					if cond, ok := iff.Cond.(*ssa.BinOp); ok {
+						for _, pair := range [][2]ssa.Value{{cond.X, cond.Y}, {cond.Y, cond.X}} {
+							if pair[0] == bo.Y || core.SameStorage(pair[0], bo.Y) || sameAccessPath(stripConv(pair[0]), stripConv(bo.Y), 0) {
+								if k, ok := pair[1].(*ssa.Const); ok && k.Value != nil {
+									guarded = true
+								}
+							}
+						}
+					}
+				}
+				c.Check(guarded, core.SSAName(fn)+"|integer-divisor-tested|"+sprintf("%d", perFn[fn]), p.Pos(bo.Pos()),
+					core.SSAName(fn)+" divides an integer by a value that is not a constant"+ife(guarded, " after testing that value against a constant", " and does not test it against zero first: a zero divisor from the script is a Go panic, not a script error"))
+			}
+		}
+	}
+	if n == 0 {
+		core.Undecidedf("no integer division by a non-constant in the value types, builtins and modules")
+	}
+	c.Stat("script_integer_divisions", n)
+}
+
+// ---------------------------------------------------------------------------
+// byteSliceMethodsCallTheirNamesake: a method of the byte_slice type that bears
+// the name of an exported function of Go's bytes package is that function
+// applied to the slice: it calls it.  An equivalent written with another
+// function of the package (Index of the character's encoding for IndexRune)
+// differs from Go where the two differ (invalid UTF-8 and U+FFFD).  The methods
+// that are implemented independently today are listed with the reason.
+var byteSliceIndependent = map[string]string{
+	"Clone": "copies with make+copy and wraps the copy in a new script object; it is not exposed as a wrapper of bytes.Clone",
+}
+
+func byteSliceMethodsCallTheirNamesake(c *core.Ctx) {
+	p := c.P
+	op := p.Pkg("object")
+	bsT := core.MustType(op, "ByteSlice")
+	var goBytes *types.Package
+	for _, im := range op.Types.Imports() {
+		if im.Path() == "bytes" {
+			goBytes = im
+		}
+	}
+	if goBytes == nil {
+		core.Undecidedf("package object does not import bytes")
+	}
+	n := 0
+	for _, m := range core.Methods(bsT) {
+		target, _ := goBytes.Scope().Lookup(m.Name()).(*types.Func)
+		if target == nil || !target.Exported() {
+			continue
+		}
+		sf := p.SSAFunc(m)
+		if sf == nil || sf.Blocks == nil {
+			continue
+		}
+		n++
+		if why, ok := byteSliceIndependent[m.Name()]; ok {
+			c.Pass("object.ByteSlice."+m.Name()+"|calls-bytes-namesake", p.Pos(sf.Pos()), "listed as implemented independently: "+why)
+			continue
+		}
+		calls := false
+		for _, b := range sf.Blocks {
+			for _, in := range b.Instrs {
+				if call, ok := in.(*ssa.Call); ok {
+					if cal := call.Call.StaticCallee(); cal != nil && cal.Object() == types.Object(target) {
+						calls = true
+					}
+				}
+			}
+		}
+		c.Check(calls, "object.ByteSlice."+m.Name()+"|calls-bytes-namesake", p.Pos(sf.Pos()),
+			"byte_slice."+m.Name()+ife(calls, " calls bytes."+m.Name(), " does not call bytes."+m.Name()+": it answers by other means, which agree with Go only where those means and bytes."+m.Name()+" agree"))
+	}
+	if n < 10 {
+		core.Undecidedf("only %d methods of ByteSlice are named after a function of package bytes", n)
+	}
+	c.Stat("byte_slice_namesakes", n)
+}
